@@ -21,8 +21,9 @@
      render_kids_balanced        : the same for a list of nodes.
      new_sub_renderer_meta, sub_renderer_balanced :
        a nested sub-renderer (heading, quote, list item, dd, table cell) starts with
-       (w, options of the parent, annotation stack of the parent, 0, 0, []) and has exactly
-       that meta part again when it is popped; the parent stack is as before.
+       (w, options, annotation stack, strikeout-filter depth, preformat depth, white-space
+       mode stack of the parent) and has exactly that meta part again when it is popped; the
+       parent stack is as before.
      render_tree_balanced : render_tree d mw o width tree = Ok s ->
                             meta_of s = (width, o, [], 0, 0, []).
 
@@ -63,11 +64,13 @@
        ApiProofs.rline_string_into_tagged / routes_agree (Props/C10.v); not repeated.
 
    FINDINGS (section 7; examples computed in the model, confirmed on the implementation)
-     F1  new_sub_renderer copies only the annotation stack: preformat depth and white-space
-         mode are NOT inherited, so text in a list item / quote / heading / dd / table cell
-         inside <pre> loses the Preformat annotation and its white space.
-     F2  the strikeout text filter is not inherited either (struck text inside a nested block
-         is not struck with the plain decorator although it carries Strikeout with the rich one).
+     F1  (REPAIRED in Sub.new_sub_renderer) new_sub_renderer used to copy only the annotation
+         stack: preformat depth and white-space mode were NOT inherited, so text in a list item /
+         quote / heading / dd / table cell inside <pre> lost the Preformat annotation and its
+         white space.  Now they are inherited (f1_pre_kept_in_sub_renderer).
+     F2  (REPAIRED likewise) the strikeout text filter was not inherited either (struck text
+         inside a nested block was not struck with the plain decorator although it carried
+         Strikeout with the rich one).  Now it is (f2_strike_filter_kept_in_sub_renderer).
      F3  block padding takes the tag of the last pending inter-word space even if that element
          is closed: <p>x<em> </em></p> with pad_block_width pads the line with spaces tagged
          Emphasis (a leak past the end of the element, padding only).
@@ -1394,8 +1397,8 @@ Section TagInv.
       - eapply with_top_T; eassumption.
     Qed.
 
-    (* a nested sub-renderer: it starts with the annotation stack of its parent, no strikeout
-       filter, no preformat depth and the default white-space mode; after the children it has
+    (* a nested sub-renderer: it starts with the annotation stack, the strikeout-filter depth,
+       the preformat depth and the white-space modes of its parent; after the children it has
        the same meta part again; only tags extending the parent's stack are stored in it *)
     Lemma scope_T st tp w st2 sub st3 :
       top st = Ok tp -> stT True idm (push_sub st (new_sub_renderer tp w)) st2 ->
@@ -1725,10 +1728,12 @@ Qed.
 Print Assumptions render_kids_balanced.
 
 (* Nested sub-renderers (headings, block quotes, list items, definitions, table cells): a new
-   sub-renderer starts with the annotation stack of its parent, but with NO strikeout filter,
-   preformat depth 0 and the default white-space mode (see FINDINGS below) ... *)
+   sub-renderer starts with the options, the annotation stack, the strikeout-filter depth, the
+   preformat depth and the white-space mode stack of its parent; only the width is its own
+   (this repairs the former findings F1/F2, see section 7) ... *)
 Lemma new_sub_renderer_meta : forall s w,
-  meta_of (new_sub_renderer s w) = mkmeta w (sopts s) (ann_stack s) O 0 [].
+  meta_of (new_sub_renderer s w) =
+  mkmeta w (sopts s) (ann_stack s) (filter_depth s) (pre_depth s) (ws_stack s).
 Proof. reflexivity. Qed.
 
 (* ... and when it is popped after its children it has exactly that meta part again, and the
@@ -1738,7 +1743,8 @@ Theorem sub_renderer_balanced : forall d mw cs st tp w st2 sub st3,
   fold_left (fun acc c => do s <- acc; render_node d mw c s) cs
             (Ok (push_sub st (new_sub_renderer tp w))) = Ok st2 ->
   pop_sub st2 = Ok (sub, st3) ->
-  stack st3 = stack st /\ meta_of sub = mkmeta w (sopts tp) (ann_stack tp) O 0 [].
+  stack st3 = stack st /\
+  meta_of sub = mkmeta w (sopts tp) (ann_stack tp) (filter_depth tp) (pre_depth tp) (ws_stack tp).
 Proof.
   intros d mw cs st tp w st2 sub st3 Ht H Hp.
   destruct (render_kids_balanced d mw cs _ st2 (new_sub_renderer tp w) (stack st) H eq_refl)
@@ -2137,41 +2143,71 @@ Qed.
 (* 7. FINDINGS (behaviour of html2text that the model reproduces)       *)
 (* ================================================================== *)
 
-(* F1.  new_sub_renderer copies the annotation stack but neither the preformat depth nor the
-   white-space mode stack (new_sub_renderer_meta above).  So a block that gets its own
-   sub-renderer (list item, block quote, heading, dd, table cell) inside <pre> loses both
-   the Preformat annotation and the preserved white space:
-   <pre>a  b<ul><li>x  y</li></ul>c  d</pre>  renders  "* x y"  with the empty tag.
-   (Implementation, rich decorator, width 40: same output.)  This contradicts "every piece of
-   text carries exactly the annotations of the elements that enclose it ... preformatted with
-   its continuation flag ... independent of block nesting and table cells". *)
+(* F1 (REPAIRED in the model, Sub.new_sub_renderer).  new_sub_renderer used to copy the
+   annotation stack but neither the preformat depth nor the white-space mode stack, so a block
+   with its own sub-renderer (list item, block quote, heading, dd, table cell) inside <pre> lost
+   both the Preformat annotation and the preserved white space:
+   <pre>a  b<ul><li>x  y</li></ul>c  d</pre>  rendered  "* x y"  with the empty tag.
+   Now the nested sub-renderer inherits preformat depth and white-space modes
+   (new_sub_renderer_meta above): the text of the item keeps its two spaces and carries
+   Preformat(false); the list prefix "* " carries the annotation stack of the parent ([]), as
+   every prefix does (attach_prefixes_Q). *)
 Definition f1_tree : rnode :=
   RN (IBlock [ab_txt [97;32;32;98];
               ex_n (IUl [ex_n (IListItem [ab_txt [120;32;32;121]])]);
               ab_txt [99;32;32;100]]) ab_pre.
-Example f1_pre_lost_in_sub_renderer :
+Example f1_pre_kept_in_sub_renderer :
   ab_obs (render_tree rich_deco 3 ab_opts 20 f1_tree) =
   Ok [[([97;32;32;98], [APre false])];
-      [([42;32;120;32;121], [])];
+      [([42;32], []); ([120;32;32;121], [APre false])];
       [([99;32;32;100], [APre false])]].
 Proof. vm_compute. reflexivity. Qed.
 
-(* F2.  The same for the strikeout text filter: <s>ab<ul><li>cd</li></ul>ef</s> with the plain
-   decorator strikes "ab" and "ef" (U+0336 after each character) but not "cd", although with
-   the rich decorator "cd" does carry the Strikeout annotation (the annotation stack is copied,
-   the filter stack is not). *)
+(* sub_renderer_balanced exercised with a parent that is inside <strong> and <pre> (annotation
+   stack [AStrong], preformat depth 1): the nested sub-renderer of width 7 is popped with
+   exactly the meta part (7, options, [AStrong], 0, 1, []) it started with, and its text carries
+   Preformat (white space is collapsed here because ab_s0p has an empty white-space stack). *)
+Definition f1_kids : list rnode := [ab_txt [120;32;32;121]; ex_n (IEm [ab_txt [122]])].
+Definition f1_st2 : rstate :=
+  match fold_left (fun acc c => do s <- acc; render_node rich_deco 3 c s) f1_kids
+                  (Ok (push_sub ab_st0p (new_sub_renderer ab_s0p 7))) with
+  | Ok st => st | _ => ab_st0p end.
+Example f1_kids_eq :
+  fold_left (fun acc c => do s <- acc; render_node rich_deco 3 c s) f1_kids
+            (Ok (push_sub ab_st0p (new_sub_renderer ab_s0p 7))) = Ok f1_st2.
+Proof. vm_compute. reflexivity. Qed.
+Definition f1_popped : subr * rstate :=
+  match pop_sub f1_st2 with Ok p => p | _ => (ab_s0p, ab_st0p) end.
+Example f1_pop_eq : pop_sub f1_st2 = Ok (fst f1_popped, snd f1_popped).
+Proof. vm_compute. reflexivity. Qed.
+Example f1_sub_renderer_balanced_applies :
+  stack (snd f1_popped) = [ab_s0p] /\
+  meta_of (fst f1_popped) = mkmeta 7 ab_opts [AStrong] O 1 [].
+Proof.
+  exact (sub_renderer_balanced rich_deco 3 f1_kids ab_st0p ab_s0p 7 f1_st2 (fst f1_popped)
+                               (snd f1_popped) eq_refl f1_kids_eq f1_pop_eq).
+Qed.
+Example f1_sub_obs :
+  obs_sub (fst f1_popped) =
+  Ok [[([120;32;121], [AStrong; APre false]); ([122], [AStrong; AEm; APre false])]].
+Proof. vm_compute. reflexivity. Qed.
+
+(* F2 (REPAIRED likewise).  The strikeout text filter was not inherited either:
+   <s>ab<ul><li>cd</li></ul>ef</s> with the plain decorator struck "ab" and "ef" (U+0336 after
+   each character) but not "cd", although with the rich decorator "cd" did carry the Strikeout
+   annotation.  Now the filter depth is inherited and "cd" is struck as well. *)
 Definition f2_tree : rnode :=
   ex_n (IStrikeout [ab_txt [97;98]; ex_n (IUl [ex_n (IListItem [ab_txt [99;100]])]); ab_txt [101;102]]).
-Example f2_strike_filter_lost_in_sub_renderer :
+Example f2_strike_filter_kept_in_sub_renderer :
   ab_obs (render_tree plain_deco 3 (render_options (with_decorator plain_deco)) 20 f2_tree) =
   Ok [[([97;822;98;822], [ADefault])];
-      [([42;32;99;100], [ADefault])];
+      [([42;32;99;822;100;822], [ADefault])];
       [([101;822;102;822], [ADefault])]].
 Proof. vm_compute. reflexivity. Qed.
-Example f2_rich_annotation_kept :
+Example f2_rich_annotation_and_filter :
   ab_obs (render_tree rich_deco 3 ab_opts 20 f2_tree) =
   Ok [[([97;822;98;822], [AStrike])];
-      [([42;32;99;100], [AStrike])];
+      [([42;32;99;822;100;822], [AStrike])];
       [([101;822;102;822], [AStrike])]].
 Proof. vm_compute. reflexivity. Qed.
 
